@@ -261,7 +261,7 @@ def _harness_once(buf, threads, timeout, tag):
     return ok, p, outs, [x for x in started if x not in ended]
 
 
-def run_harness(cases, threads=None, chunk=20000):
+def run_harness(cases, threads=None, chunk=20000, timeout=None):
     """cases: iterable of dicts {"id":..,"ops":[..]} -> yields result dicts in order.
     If the harness process dies or does not finish, the case responsible is identified (started but not ended, then
     confirmed by running it alone) and CodeCrashed is raised -- check.py turns it into a VIOLATION with that case as replay."""
@@ -270,10 +270,10 @@ def run_harness(cases, threads=None, chunk=20000):
     n = 0
 
     def flush(buf):
-        ok, p, outs, unfinished = _harness_once(buf, threads, HARNESS_TIMEOUT, str(n))
+        ok, p, outs, unfinished = _harness_once(buf, threads, timeout or HARNESS_TIMEOUT, str(n))
         if ok:
             return [json.loads(o) for o in outs]
-        why = "killed by the %d s watchdog" % HARNESS_TIMEOUT if p.returncode in (124, 137, -9) else \
+        why = "killed by the %d s watchdog" % (timeout or HARNESS_TIMEOUT) if p.returncode in (124, 137, -9) else \
             "exit status %s: %s" % (p.returncode, p.stderr.decode()[-600:])
         by_id = {json.dumps(c["id"]): c for c in buf}
         for sid in unfinished[:8]:
